@@ -46,6 +46,8 @@ pub struct GraphOpts {
     pub sized: bool,
     /// now and then add a few dozen tiny independent sources (more results than any queue holds)
     pub wide: bool,
+    /// allow one source of more than 1 MiB (never together with per-step snapshots)
+    pub mega: bool,
 }
 
 impl Default for GraphOpts {
@@ -63,6 +65,7 @@ impl Default for GraphOpts {
             mark_all: false,
             sized: true,
             wide: false,
+            mega: false,
         }
     }
 }
@@ -127,7 +130,7 @@ impl SrcB {
 }
 
 const DIRS: [&str; 5] = ["", "sub", "sub/deep", "lib", "sub/other"];
-const TEXTS: [&str; 12] = [
+const TEXTS: [&str; 13] = [
     "hello",
     "",
     "  indented line",
@@ -140,6 +143,7 @@ const TEXTS: [&str; 12] = [
     "TXTPP#nope x",
     "-- end --",
     "a = b + c;",
+    "replacement \u{fffd} character",
 ];
 const PREFIXES: [&str; 6] = ["-", "// ", "# ", "--", "<!-- ", "//"];
 const WSS: [&str; 5] = ["", "", "  ", "\t", "    "];
@@ -325,7 +329,10 @@ pub fn gen_graph_project(rng: &mut Rng, o: &GraphOpts, n: usize, edges: &BTreeSe
     }
     if o.sized && rng.chance(1, 6) {
         // buffer-size boundaries of readers and writers (8 KiB) and the empty output
-        let size = *rng.pick(&[0usize, 0, 1, 8191, 8192, 8192, 8193, 16384, 65536]);
+        let mut size = *rng.pick(&[0usize, 0, 1, 8191, 8192, 8192, 8193, 16384, 65536]);
+        if o.mega && rng.chance(1, 6) {
+            size = 1_200_000;
+        }
         let mut text = String::new();
         while text.len() + 64 <= size {
             text.push_str(&format!("{:063}\n", text.len() / 64));
@@ -340,7 +347,8 @@ pub fn gen_graph_project(rng: &mut Rng, o: &GraphOpts, n: usize, edges: &BTreeSe
         p.add_file(&format!("sized{size}.txt.txtpp"), B(text.into_bytes()));
     }
     if o.wide && rng.chance(1, 10) {
-        let m = rng.range(20, 44);
+        // usually a few dozen, now and then several hundred (more than a 256-slot queue holds)
+        let m = if rng.chance(1, 8) { rng.range(300, 420) } else { rng.range(20, 44) };
         for k in 0..m {
             p.add_file(&format!("wide/w{k}.txt.txtpp"), B(format!("wide {k}\n").into_bytes()));
         }
@@ -382,6 +390,8 @@ fn gen_free_element(
                 "printf 'a\\n\\nb\\n'",
                 "printf 'x\\r\\ny\\r\\n'",
                 "printf ''",
+                // not valid UTF-8: txtpp decodes command output lossily
+                "printf 'bad\\377byte\\n'",
             ]);
             if o.mark_all {
                 let id = format!("r{i}.{}", b.lines.len());
